@@ -1,5 +1,6 @@
 import NimaVerif.Lemmas.Trivia
 import NimaVerif.Lemmas.FragParse
+import NimaVerif.Lemmas.FragSafe
 /-!
 # C01 — a comment never absorbs code (trivia algebra)
 
@@ -180,6 +181,18 @@ theorem frag_pieces_solid (f : File) (s : Src) (hwf : f.wf = true) (hp : f.parse
   rw [hp] at hp'; injection hp' with hs; subst hs
   exact (srcRebuildP_lex s hok).2
 
+
+/-- A COMMENT NEVER ABSORBS CODE. In the rebuilt file, whatever is written after a line-comment
+    piece (`# …`) is nothing at all or starts with a line break — so the comment token tree-sitter
+    reads from the output text ends where the piece ends and no code token is inside it. For every
+    well-formed file of the fragment. (`safeGo` is the scan that decides it; it also says that no
+    token or comment follows an open line comment directly.) -/
+theorem frag_safe (f : File) (s : Src) (hwf : f.wf = true) (_hws : f.noLeadingWs = true) (hp : f.parse = .ok s) :
+    safeGo false s.rebuildP = true ∧
+    ∀ (pre post : List FP) (c : Text), s.rebuildP = pre ++ .cmt c :: post → isLineTok c = true →
+      concat post = [] ∨ startsWithNL (concat post) = true := by
+  have h := file_safe f s hwf hp
+  exact ⟨h, fun pre post c he hl => safeGo_spec false _ pre post c h he hl⟩
 
 /-- In the model, a name is single-segment when the model's fuel version of the attrpath splitter
     says so; that version is `Model/AttrPath.lean: splitAttrpath` (the transliteration C12 is about). -/
